@@ -467,8 +467,56 @@ func checkToHops(c *Ctx) {
 			targets = append(targets, b)
 		}
 	}
-	var ips []IPath
+	// the hop is judged at the END of the loop trip that put it into the result: a hop may be stored first and filled in through
+	// its pointer afterwards, so the paths run on to the latches of the loop (the blocks that jump back to its header)
+	endOfTrip := map[*ssa.BasicBlock]bool{}
 	for _, tb := range targets {
+		loop := innermostLoop(f, tb)
+		var header *ssa.BasicBlock
+		for h := range loop {
+			all := true
+			for x := range loop {
+				if !h.Dominates(x) {
+					all = false
+				}
+			}
+			if all {
+				header = h
+			}
+		}
+		found := false
+		if header != nil {
+			// latches reachable from the store block inside the loop
+			seen := map[*ssa.BasicBlock]bool{}
+			var walk func(x *ssa.BasicBlock)
+			walk = func(x *ssa.BasicBlock) {
+				if seen[x] || !loop[x] {
+					return
+				}
+				seen[x] = true
+				for _, sc := range x.Succs {
+					if sc == header {
+						endOfTrip[x] = true
+						found = true
+						continue
+					}
+					walk(sc)
+				}
+			}
+			walk(tb)
+		}
+		if !found {
+			endOfTrip[tb] = true
+		}
+	}
+	var ends []*ssa.BasicBlock
+	for _, b := range f.Blocks {
+		if endOfTrip[b] {
+			ends = append(ends, b)
+		}
+	}
+	var ips []IPath
+	for _, tb := range ends {
 		ips = append(ips, InlinedPathsTo(c.P, f, tb, inlineOpts{pkg: core.FuncPkg(f), openAll: true, stop: hasLoop, maxDepth: 4})...)
 	}
 	for _, ip := range ips {
